@@ -90,7 +90,7 @@ impl Drop for Server {
     fn drop(&mut self) {
         self.stop.store(true, Ordering::SeqCst);
         // unblock accept()
-        let _ = TcpStream::connect(("127.0.0.1", self.port));
+        let _ = TcpStream::connect(("127.0.0.1", self.port)).or_else(|_| TcpStream::connect(("::1", self.port)));
     }
 }
 
@@ -118,7 +118,12 @@ impl<S: Write> Write for Counted<S> {
 
 impl Server {
     pub fn start(handler: Handler, tls: Option<TlsIdentity>) -> std::io::Result<Server> {
-        let listener = TcpListener::bind(("127.0.0.1", 0))?;
+        Server::start_on("127.0.0.1", handler, tls)
+    }
+
+    /// `host` = "127.0.0.1" or "::1"
+    pub fn start_on(host: &str, handler: Handler, tls: Option<TlsIdentity>) -> std::io::Result<Server> {
+        let listener = TcpListener::bind((host, 0))?;
         let port = listener.local_addr()?.port();
         let records = Arc::new(Mutex::new(Vec::new()));
         let conns: Arc<Mutex<Vec<ConnInfo>>> = Arc::new(Mutex::new(Vec::new()));
